@@ -216,6 +216,14 @@ func (e *tkEVM) ApplyMessage(ctx sdk.Context, msg core.Message, tracer vm.EVMLog
 				}
 			case "over":
 				amt.Add(amt, bigOne)
+			case "short64": // off by a whole 64-bit word: the low words of expected and actual balance agree
+				if amt.Cmp(pow2(64)) >= 0 {
+					amt.Sub(amt, pow2(64))
+				} else if amt.Sign() > 0 {
+					amt.Sub(amt, bigOne)
+				}
+			case "over64":
+				amt.Add(amt, pow2(64))
 			case "wrongholder":
 				holder = common.BigToAddress(new(big.Int).Add(new(big.Int).SetBytes(holder.Bytes()), bigOne))
 			}
